@@ -7,7 +7,7 @@ from .. import terms as tm
 from ..loader import AnalysisError
 from ..report import rule
 from ..terms import App, Attr, Cat, Comp, Idx, Lst, Poly, PW, Range, Rep, Slc, Sym
-from .common import bind_args, calls_to, unparse
+from .common import bind_args, calls_to, ctor_args, unparse
 from .plumb import plumb
 
 PAD = "data_preparation.pad_missing_labels"
@@ -152,7 +152,7 @@ def _r3(ctx):
     # ([0] + E[:-1])[k]: for k >= 1 the position k-1 <= n-2 lies inside the prefix E[:-1], so E[:-1][k-1] is E[k-1]
     E_cut = Idx(E, (Slc(None, tm.const(-1), None),))
     alt2 = PW([(tm.compare("==", k, 0), tm.ZERO), (tm.compare("!=", k, 0), Idx(E_cut, (tm.add(k, -1),)))])
-    ctx.check(lo is not None and (lo == want_lo or lo == alt or lo == alt2), fi, "slice k starts at e_{k-1} (0 for the first series): parts are adjacent and disjoint",
+    ctx.check(lo is not None and any(tm.pw_equiv(lo, w_, k, lo=0) for w_ in (want_lo, alt, alt2)), fi, "slice k starts at e_{k-1} (0 for the first series): parts are adjacent and disjoint",
               role="start", expected=str(want_lo), found=str(lo))
 
 
@@ -165,7 +165,7 @@ def r4(ctx):
     ctor = calls_to(ana, fi, "fast_ticc.containers.results.MultipleDataSeriesResult")
     if len(ctor) != 1:
         raise AnalysisError("MultipleDataSeriesResult constructor call not found exactly once")
-    kw = {k.arg: k.value for k in ctor[0].node.keywords}
+    kw = ctor_args(ana, ctor[0])
     t = b.term(kw["point_labels"]) if "point_labels" in kw else None
     split = App(ana.func(SPLIT).qualname, (Attr(master, "point_labels"), sizes))
     ok = isinstance(t, Comp) and not t.conds and t.iter == Range(0, tm.length(split))
@@ -210,7 +210,7 @@ def r5(ctx):
     ctor = calls_to(ana, fi, "fast_ticc.containers.results.SingleDataSeriesResult")
     if len(ctor) != 1:
         raise AnalysisError("SingleDataSeriesResult constructor call not found exactly once")
-    kw = {k.arg: k.value for k in ctor[0].node.keywords}
+    kw = ctor_args(ana, ctor[0])
     rows = Idx(Attr(data, "shape"), (tm.ZERO,))
     # labels
     lab = kw.get("point_labels")
